@@ -398,6 +398,29 @@ class IEG:
         if k == "goto":
             return [(self._node(f, t["target"], tag), 'goto')]
         if k == "switch":
+            cval = None
+            if "const" in t["discr"] and t["discr"]["const"].get("k") == "int":
+                cval = int(t["discr"]["const"]["v"])
+            else:
+                op = t["discr"].get("move") or t["discr"].get("copy")
+                if op is not None and "p" not in op:
+                    for st in n.stmts:
+                        if st["k"] == "assign" and "p" not in st["place"] and st["place"]["l"] == op["l"]:
+                            rv = st["rv"]
+                            if rv["k"] == "use" and "const" in rv["op"] and rv["op"]["const"].get("k") == "int" and "def" not in rv["op"]["const"]:
+                                cval = int(rv["op"]["const"]["v"])
+                            else:
+                                cval = None
+            if cval is not None:
+                # constant condition (cfg!(debug_assertions), literal true): only the matching edge exists
+                val = cval
+                tgt = None
+                for v, b in t["targets"]:
+                    if int(v) == val:
+                        tgt = b
+                if tgt is None:
+                    tgt = t["otherwise"]
+                return [(self._node(f, tgt, tag), ('case', val))]
             if tag:
                 hit = self._var_switch(n)
                 if hit is not None:
